@@ -27,6 +27,7 @@ struct TCase {
     tg::Tissue tissue;
     double lmin_f = 0.5, cut_rep_f = 0.3, cut_adh_f = 0.3;
     int normals_state = 1, lone = 0;
+    double aff[3] = {1, 1, 0};  // affine distortion of the whole tissue (x' = sx x + shear y, y' = sy y): obtuse and needle-shaped triangles
     int threads = 1;         // the whole-tissue clauses hold whatever the order in which the threads accumulate the contact forces
     unsigned keep_mask = 0;  // != 0: after the first run the cells whose bit is clear are removed (the way the solver removes cells)
                              // and the SAME model instance runs again on the remaining population
@@ -34,6 +35,7 @@ struct TCase {
         tissue.write(w);
         w.d(lmin_f), w.d(cut_rep_f), w.d(cut_adh_f), w.i(normals_state), w.i(lone);
         w.u(keep_mask), w.i(threads);
+        w.d(aff[0]), w.d(aff[1]), w.d(aff[2]);
         w.nl();
     }
     static TCase read(vf::Reader& r) {
@@ -42,6 +44,7 @@ struct TCase {
         c.lmin_f = r.d(), c.cut_rep_f = r.d(), c.cut_adh_f = r.d(), c.normals_state = (int)r.i(), c.lone = (int)r.i();
         if (r.more()) c.keep_mask = (unsigned)r.u();
         if (r.more()) c.threads = (int)r.i();
+        if (r.more()) c.aff[0] = r.d(), c.aff[1] = r.d(), c.aff[2] = r.d();
         return c;
     }
 };
@@ -57,6 +60,7 @@ static rc::Gen<TCase> genT() {
         c.lone = *irange(0, 9) == 0;
         // half of the cases continue with a second run of the same model on a shrunk population (1 cell left, or a random subset)
         c.threads = *rc::gen::element(1, 1, 1, 2, 3, 8);
+        if (*irange(0, 2) == 0) c.aff[0] = *uniform(1.0, 3.0), c.aff[1] = *uniform(0.35, 1.0), c.aff[2] = *uniform(-1.2, 1.2);
         if (*irange(0, 1)) c.keep_mask = *irange(0, 2) == 0 ? (1u << *irange(0, 4)) : (unsigned)*irange(1, 127);
         return c;
     });
@@ -67,6 +71,12 @@ static std::string runT(const TCase& k, vf::Ctx& ctx) {
     ct::CellScope scope;
     tg::Tissue tis = k.tissue;
     if (k.lone) tis.cells.resize(1);
+    for (auto& cd : tis.cells)
+        for (size_t i = 0; i < cd.mesh.nn(); i++) {
+            const double x = cd.mesh.xyz[3 * i], y = cd.mesh.xyz[3 * i + 1];
+            cd.mesh.xyz[3 * i] = k.aff[0] * x + k.aff[2] * y;
+            cd.mesh.xyz[3 * i + 1] = k.aff[1] * y;
+        }
     tg::Built b;
     try {
         b = tg::build(tis, 10., 1., &scope);
@@ -190,6 +200,7 @@ static std::string runT(const TCase& k, vf::Ctx& ctx) {
     if (n_coupled) ctx.count("tissue_with_couplings");
     if (b.cells.size() == 1) ctx.count("lone_cell");
     if (k.threads > 1 && (n_forced || n_coupled)) ctx.count("contacts_computed_by_several_threads");
+    if ((k.aff[0] != 1 || k.aff[2] != 0) && (n_forced || n_coupled)) ctx.count("contacts_on_distorted_tissue_with_obtuse_triangles");
     if (n_forced || n_coupled) {
         ctx.nontriv();
         std::ostringstream s2;
